@@ -547,3 +547,12 @@ Definition ok_b64_decode (c : list N * option (list N)) : bool :=
   | _, _ => false
   end.
 Definition mismatches_b64_decode := mismatches ok_b64_decode.
+
+(** new-style resolution with the two middleware-order flags as the rest of the configuration: observed = (package,
+    generate section, initialism-overrides, (chi flag, gorilla flag)) after --output-config *)
+Definition ok_resolve_flags (c : @config (bool * bool) * option (string * gen * bool * (bool * bool))) : bool :=
+  let '(cfg, obs) := c in
+  opt_eqb (fun a b => let '(p1, g1, i1, (x1, y1)) := a in let '(p2, g2, i2, (x2, y2)) := b in
+                      String.eqb p1 p2 && gen_eqb g1 g2 && Bool.eqb i1 i2 && Bool.eqb x1 x2 && Bool.eqb y1 y2)
+          (option_map (fun r => (c_package r, c_gen r, c_initialism r, c_rest r)) (resolve_new cfg)) obs.
+Definition mismatches_resolve_flags := mismatches ok_resolve_flags.
